@@ -23,13 +23,18 @@
        inputs decoding to the same value are equal (C05_schema_der_injective),
        and the re-encoding reads back as the same value
        (C05_schema_der_reencode).
-   PARTIAL: OPTIONAL/CHOICE fields and string/OID leaves are not in the schema
+     - records with OPTIONAL fields: the same for schemas with OPTIONAL record
+       fields: an optional read that reports absence has touched nothing, and
+       whatever is accepted is the DER encoding of the value returned
+       (C05_optional_schema_sound_in_context, C05_optional_schema_der_canonical,
+       C05_optional_schema_der_injective, C05_optional_schema_der_reencode).
+   PARTIAL: CHOICE fields and string/OID leaves are not in the schema
    datatype (leaf theorems above); restricted strings and captured values by
    streams (c05.leaf, c05.lengths, records). *)
 Require Import BV.Model.Base BV.Model.SrcB BV.Model.Twos BV.Model.Int BV.Model.BitStr BV.Model.Oid.
 Require Import BV.Model.Length BV.Model.Tag BV.Model.Content BV.Model.Encode.
 Require Import BV.Proofs.SrcBP BV.Proofs.IntP BV.Proofs.IntEncP BV.Proofs.BitStrP BV.Proofs.OidP BV.Proofs.ContentP BV.Proofs.WinP
-               BV.Proofs.TotalP BV.Proofs.DeltaP BV.Proofs.GrammarP BV.Proofs.EncGrammarP BV.Proofs.TypedP BV.Proofs.SchemaP BV.Proofs.SchemaSoundP.
+               BV.Proofs.TotalP BV.Proofs.DeltaP BV.Proofs.GrammarP BV.Proofs.EncGrammarP BV.Proofs.TypedP BV.Proofs.SchemaP BV.Proofs.SchemaSoundP BV.Proofs.Schema2P BV.Proofs.Schema2SoundP.
 
 Theorem C05_der_encoding_unique :
   (forall t d, GrammarP.enc Der t d -> forall d', GrammarP.enc Der t d' -> d = d') /\
@@ -119,6 +124,41 @@ Example C05_schema_ex :
   = (Ok (VSeq [VInt (-300); VSeq [VBool true; VNull]]), pure_src [] None).
 Proof. exact schema_sound_example. Qed.
 
+(* records with OPTIONAL fields *)
+Theorem C05_optional_schema_sound_in_context : forall s fuel c src o c' src',
+  ok2 s -> kinds_ok2 s -> nf src -> octets_ok (rem src) = true -> cmd c = Der ->
+  dec2 fuel s c src = (Ok (o, c'), src') ->
+  nf src' /\ c' = c /\
+  match o with
+  | None => src' = src
+  | Some v => exists e d, enc2 s v = Some e /\ enc_write Der e = Ok d /\ rem src = d ++ rem src' /\ consumed src src' (len d)
+  end.
+Proof. exact schema2_sound. Qed.
+
+Theorem C05_optional_schema_der_canonical : forall s v d s1,
+  ok2 s -> kinds_ok2 s -> octets_ok d = true ->
+  decode_src Der (fun c => mandatory (dec2 (depth2 s) s c)) (pure_src d None) = (Ok v, s1) ->
+  exists e d0, enc2 s v = Some e /\ enc_write Der e = Ok d0 /\ d = d0 ++ rem s1.
+Proof. exact schema2_der_canonical. Qed.
+
+Theorem C05_optional_schema_der_injective : forall s v d1 d2,
+  ok2 s -> kinds_ok2 s -> octets_ok d1 = true -> octets_ok d2 = true ->
+  decode_src Der (fun c => mandatory (dec2 (depth2 s) s c)) (pure_src d1 None) = (Ok v, pure_src [] None) ->
+  decode_src Der (fun c => mandatory (dec2 (depth2 s) s c)) (pure_src d2 None) = (Ok v, pure_src [] None) ->
+  d1 = d2.
+Proof. exact schema2_der_injective. Qed.
+
+Theorem C05_optional_schema_der_reencode : forall s v d s1,
+  ok2 s -> kinds_ok2 s -> octets_ok d = true ->
+  decode_src Der (fun c => mandatory (dec2 (depth2 s) s c)) (pure_src d None) = (Ok v, s1) ->
+  exists e d0, enc2 s v = Some e /\ enc_write Der e = Ok d0 /\ d = d0 ++ rem s1 /\
+    decode_src Der (fun c => mandatory (dec2 (depth2 s) s c)) (pure_src d0 None) = (Ok v, pure_src [] None).
+Proof. exact schema2_der_reencode. Qed.
+
+Print Assumptions C05_optional_schema_sound_in_context.
+Print Assumptions C05_optional_schema_der_canonical.
+Print Assumptions C05_optional_schema_der_injective.
+Print Assumptions C05_optional_schema_der_reencode.
 Print Assumptions C05_schema_sound_in_context.
 Print Assumptions C05_schema_der_canonical.
 Print Assumptions C05_schema_der_injective.
